@@ -18,3 +18,7 @@ import TssVerif.Props.C01
 import TssVerif.Props.C02
 import TssVerif.Props.C03
 import TssVerif.Props.C04
+import TssVerif.Props.C05
+import TssVerif.Props.C18
+import TssVerif.Props.C19
+import TssVerif.Props.C20
